@@ -357,6 +357,28 @@ func (p *prop) deliver(f func() error, gated bool) string {
 	}()
 	gs, quiet := p.waitQuiet()
 	ret := ""
+	var got *res
+	select {
+	case r := <-done:
+		got = &r
+	default:
+		// The handler looks parked. Before calling it blocked for good, look again for a while:
+		// on a heavily loaded machine a handler can be seen parked on a mutex that is about to be released.
+		for i := 0; i < 40 && got == nil; i++ {
+			time.Sleep(5 * time.Millisecond)
+			select {
+			case r := <-done:
+				got = &r
+			default:
+			}
+		}
+		if got != nil {
+			gs, quiet = p.waitQuiet()
+		}
+	}
+	if got != nil {
+		done <- *got
+	}
 	select {
 	case r := <-done:
 		switch {
@@ -645,7 +667,15 @@ func main() {
 			_ = p.holder.Close()
 		}
 		if p.dir != "" {
-			_ = os.RemoveAll(p.dir)
+			// goroutines of abandoned (deadlocked / aborted) clusters may still write their .topology file
+			for i := 0; i < 20; i++ {
+				if err := os.RemoveAll(p.dir); err == nil {
+					if _, serr := os.Stat(p.dir); os.IsNotExist(serr) {
+						break
+					}
+				}
+				time.Sleep(10 * time.Millisecond)
+			}
 		}
 	}()
 	vh.Main(p)
